@@ -132,6 +132,9 @@ func (w *writer) Message() MessageWriter {
 func (w *writer) Free() {
 	w.close()
 
+	if w.writerState == nil {
+		return // already released (after an error or a previous Free)
+	}
 	if !w.releaseState && !w.releaseWriter {
 		w.free()
 	}
